@@ -20,7 +20,7 @@ func init() {
 			`R04.4 symlink destinations read from disk are compared with / created from the signed Dest modulo filepath.FromSlash only (tlc records Readlink verbatim). ` +
 			`R04.6 also: the strong hash written does not come out of a variable that survives from one block to the next (captured variable, field, package variable, map). ` +
 			`R13.10 (shared) ReadMessage fails on a decoded length beyond a constant only if WriteMessage fails beyond a constant that is not larger (the container is one message). ` +
-			`NOT decided: block boundaries under re-chunking, hash values, that validating a pristine copy reports nothing.`,
+			`R13.12 (shared) CompressWire hands back its input context only through the outcome Algorithm == NONE. NOT decided: block boundaries under re-chunking, hash values, that validating a pristine copy reports nothing.`,
 		Run: runC04,
 	})
 }
@@ -123,6 +123,7 @@ func runC04(c *core.Ctx) {
 	ruleShortSizeIsShort(c, "R04.5")
 	ruleSignedHashesAreComputed(c, "R04.6")
 	ruleReaderAcceptsWhatWriterWrites(c, "R13.10")
+	rulePassThroughOnlyForNone(c, "R13.12")
 	ruleCopyWritesWhatItRead(c, "R01.6")
 
 	// ---- R04.1
